@@ -14,7 +14,7 @@ _DOMAIN = ("Inputs stay inside the property's stated domain; the known-finding c
 
 TEXTS = {
     "C01": {
-        "technique": "model-based stateful property testing (rapid state machine vs. map model) with derived absent-key sweeps",
+        "technique": "model-based stateful property testing (rapid state machine vs. map model) with derived absent-key sweeps, aliased and unterminated probes, non-scalar rune probes, scale histories",
         "design_ref": "DESIGN.md §4 C01",
         "level_text": "Generated histories over all six tree kinds and every key type are applied to the real tree and to a map model; every Insert/Delete/Search outcome and periodic full sweeps (all stored keys found with their value, derived absent neighbours - truncations, extensions, one-byte changes - not found, no call panics) are compared. Focused templates force the hard classes (probes shorter than / diverging inside a >10-byte path, every grow/shrink threshold, wide fan-out also in collation trees); a bounded-exhaustive closure visits every reachable tree over ten small key universes and probes every universe key in every state; a GOARCH=386 run covers the portable code. Exploration is the right level: the property quantifies over unbounded histories and an executable map oracle is exact.",
         "level_note": _TRUST + _DOMAIN,
@@ -32,7 +32,7 @@ TEXTS = {
         "level_note": _TRUST + _DOMAIN,
     },
     "C04": {
-        "technique": "model-based stateful property testing; Prefix results vs. bytes.HasPrefix filter of the sorted model, sibling-splice prefix generator",
+        "technique": "model-based stateful property testing; Prefix results vs. bytes.HasPrefix filter of the sorted model, sibling-splice prefix generator; known finding KF3 (reordered combining marks) excluded and probed",
         "design_ref": "DESIGN.md §4 C04",
         "level_text": "Histories on byte-string trees and on collation trees (6 collators, contraction-free text) with Prefix(p) for p empty, stored, cut inside/at/after a compressed path, extended, spliced from a sibling subtree, longer than every key or unmatched; the result must equal the model filtered by HasPrefix on the original bytes, in tree order, and never panic. Derived audits query prefixes of stored keys cut at 1, len/2, 10, 11, len-1, len; the closures try every prefix of every universe key in every reachable state.",
         "level_note": _TRUST + "Collation precondition (primary weights of p+s start with those of p) is checked per query with an independent primary-strength collator; violating queries are carved out and counted. " + _DOMAIN,
@@ -82,7 +82,7 @@ TEXTS = {
         "level_note": _TRUST + "The walker is plain field reads. " + _DOMAIN,
     },
     "C12": {
-        "technique": "stateful property testing over interleaved multi-tree histories with per-tree models and fresh-twin differential",
+        "technique": "stateful property testing over interleaved multi-tree histories with per-tree models and fresh-twin differential, incl. scans of two trees advanced alternately (pull iterators)",
         "design_ref": "DESIGN.md §4 C12",
         "level_text": "2..6 trees of mixed kinds on one goroutine with heavy fan-out churn so that nodes of every class move between trees through the pool; each tree is compared with its own model (results, scans, structure) with the whole query repertoire (extremes, TopK/BottomK, Range, Prefix, scans), and a tree emptied by deletes is shadowed by a freshly constructed tree that must give identical answers (incl. Minimum/Maximum) and the same class-less shape from then on.",
         "level_note": _TRUST + "Pool traffic between trees is measured (class census per op), not assumed. " + _DOMAIN,
@@ -106,13 +106,13 @@ TEXTS = {
         "level_note": _TRUST + "The collation codec's scratch buffer is not part of the node graph (its growth is C17's subject). " + _DOMAIN,
     },
     "C16": {
-        "technique": "concurrent re-execution of rapid-generated per-goroutine histories under the Go race detector, results vs. sequential reference",
+        "technique": "concurrent re-execution of rapid-generated per-goroutine histories under the Go race detector, results vs. sequential reference; plus a volume part (goroutines hammering private trees, millions of operations, plain and race builds)",
         "design_ref": "DESIGN.md §4 C16",
         "level_text": "Under -race, goroutines with private trees re-execute generated histories simultaneously (pool shared), and many goroutines query one quiescent tree; GOMAXPROCS and yield points are drawn per case; every reader also runs a fixed battery of special reads so that each query path is executed by all goroutines at once; any race report or deviation from the sequential results is a violation.",
         "level_note": "Schedules are sampled, not enumerated; a race whose two accesses never both execute in a sampled run is missed. The race detector reports no false positives.",
     },
     "C17": {
-        "technique": "generated long-running scenarios with live-heap measurement at geometric checkpoints (N,2N,4N,8N operations)",
+        "technique": "generated long-running scenarios with live-heap measurement at geometric checkpoints (N,2N,4N,8N operations), emptied / fill-and-drain / big-value scattered-survivor phases",
         "design_ref": "DESIGN.md §4 C17",
         "level_text": "rapid draws kind, key set and operation mix; 8N operations run (N=1e5 quick, 1e6 thorough) and live heap after forced collections is sampled at 0,N,2N,4N,8N: growth above 1 MiB that shows in at least two intervals is a leak; mixes: lookups only, sequences only, all reads, overwrites, churn of a fixed key set, sliding window of ever fresh keys, waves, mixed; after deleting every key, and again after a 30 000-key fill-and-drain, the tree may retain at most 256 KiB.",
         "level_note": "A measurement against thresholds, not a bound proof; leaks below ~0.7 B/op (quick) / ~0.15 B/op (thorough) escape. Over-threshold emptied-tree measurements are re-taken up to three times.",
